@@ -517,7 +517,9 @@ def explore(task, make_interp, outdir, max_paths=400, feas_timeout=3.0):
             ctxmod.CUR = None
         done.append(c)
         work.extend(c.pending)
-        if undecided:
+        # an unsupported path leaves the task undecided, but the other paths are still explored: an
+        # obligation that fails on one of them is a finding whatever the unsupported path would do
+        if undecided and len([x for x in done if getattr(x, "status", "") == "unsupported"]) >= 8:
             break
     return done, undecided, oracle
 
